@@ -26,9 +26,12 @@ META = {
 THEOREMS = [
     "C18_finders_modelled",  # generated table: every class overriding find_duplicate_surfaces is a modelled finder
     "C18_finder_types",      # generated table: the mnemonics built as finder classes
+    "C18_base_finder_modelled",  # generated: the base class's finder (run by Surface, GeneralPlane) is the modelled `return []`
     "C18_find_iff",          # the three finders return exactly the Spec.dup partners of self
     "C18_dup_symm",          # the duplicate relation (hence the repaired Transform.equivalent) is symmetric
     "C18_only",              # removed => mapped to a surviving duplicate
+    "C18_same_arity",        # merged => same mnemonic and equally many constants (a prefix is not a duplicate)
+    "C18_generic_kept",      # a surface of a class without its own finder finds nothing, is never removed, never a target
     "C18_map_domain",        # domain of matching_map = to_delete
     "C18_map_range",         # range of matching_map is disjoint from to_delete
     "C18_removed_iff",       # to_delete = the numbers that are gone afterwards
@@ -48,13 +51,20 @@ FINDER_TYPES = {
     "CX": ("CylinderOnAxis", 1), "CY": ("CylinderOnAxis", 1), "CZ": ("CylinderOnAxis", 1),
     "C/X": ("CylinderParAxis", 3), "C/Y": ("CylinderParAxis", 3), "C/Z": ("CylinderParAxis", 3),
 }
-OTHER_TYPES = {"P": 4, "SO": 1, "S": 4, "KZ": 2}
+# mnemonics built as the plain Surface / GeneralPlane class, with the numbers of constants MCNP accepts for them:
+# several of them come in more than one length (P: coefficients or three points; KZ, K/Z: optional sheet entry +-1;
+# X, Z: one, two or three coordinate pairs), and a shorter card is a *different* surface, not a duplicate of the
+# longer one that starts with the same numbers
+OTHER_ARITIES = {"P": [4, 9], "SO": [1], "S": [4], "SZ": [2], "KZ": [2, 3], "K/Z": [4, 5], "K/X": [4, 5],
+                 "Z": [2, 4, 6], "X": [2, 4, 6], "GQ": [10]}
+OTHER_TYPES = {t: a[0] for t, a in OTHER_ARITIES.items()}
 SIBLING = {"PX": "PY", "PY": "PZ", "PZ": "PX", "CX": "CY", "CY": "CZ", "CZ": "CX", "C/X": "C/Y", "C/Y": "C/Z",
-           "C/Z": "C/X", "P": "S", "S": "P", "SO": "CZ", "KZ": "SO"}
+           "C/Z": "C/X", "P": "S", "S": "P", "SO": "CZ", "KZ": "SZ", "SZ": "KZ", "K/Z": "K/X", "K/X": "K/Z",
+           "Z": "X", "X": "Z", "GQ": "SO"}
 DELTAS = ["1e-7", "1e-5", "1e-3", "0.125", "0.6"]
 BASES = ["0", "1", "1.5", "2.5", "0.25", "3", "10", "0.1"]
 VARIANTS = ["equal", "const", "const2", "type", "tr_same", "tr_near", "tr_far", "tr_rot", "tr_deg", "tr_m2a",
-            "periodic", "reflecting", "white"]
+            "periodic", "reflecting", "white", "arity"]
 
 
 def dec(x):
@@ -66,10 +76,26 @@ def nconsts(t):
     return FINDER_TYPES[t][1] if t in FINDER_TYPES else OTHER_TYPES[t]
 
 
+def arities(t):
+    """the numbers of constants a card of this mnemonic may carry"""
+    return [FINDER_TYPES[t][1]] if t in FINDER_TYPES else OTHER_ARITIES[t]
+
+
+def fill_consts(rng, t, cs, n):
+    """`cs` cut or continued to `n` constants: the common prefix is kept as it is"""
+    cs = list(cs[:n])
+    while len(cs) < n:
+        if t.startswith("K") and len(cs) == max(arities(t)) - 1:
+            cs.append(rng.choice(["-1", "1"]))  # the sheet entry of a cone
+        else:
+            cs.append(rng.choice(BASES))
+    return cs
+
+
 def base_consts(rng, t):
-    n = nconsts(t)
-    cs = [rng.choice(BASES) for _ in range(n)]
-    if t.startswith("C") or t in ("SO", "S"):
+    n = rng.choice(arities(t))
+    cs = fill_consts(rng, t, [], n)
+    if t.startswith("C") or t in ("SO", "S", "SZ"):
         cs[-1] = rng.choice(["0.5", "1", "2.5", "10"])  # a radius: positive
     return cs
 
@@ -104,8 +130,15 @@ def variant(rng, base, kind, delta, number, partner):
         s["c"][i] = dec(Decimal(s["c"][i]) + 2 * d)
     elif kind == "type":
         s["t"] = SIBLING[s["t"]]
-        if nconsts(s["t"]) != len(s["c"]):
-            s["c"] = (s["c"] * 4)[: nconsts(s["t"])]
+        if len(s["c"]) not in arities(s["t"]):
+            s["c"] = (s["c"] * 10)[: nconsts(s["t"])]
+    elif kind == "arity":
+        # the same card written with another legal number of constants, the shorter list a prefix of the longer
+        # (two-sheet / one-sheet cone, one / two / three points of X Y Z, P by coefficients / by points):
+        # a different surface however small the tolerance; unchanged for mnemonics with one length only
+        other = [n for n in arities(s["t"]) if n != len(s["c"])]
+        if other:
+            s["c"] = fill_consts(rng, s["t"], s["c"], rng.choice(other))
     elif kind == "tr_same":
         s["tr"], s["per"] = 1, None
     elif kind == "tr_near":
@@ -184,10 +217,11 @@ def gen_random_case(rng):
                 s["c"][i] = dec(Decimal(base["c"][i]) + k * Decimal(delta))
                 fam.append(s)
         else:
+            pool = VARIANTS + (["arity"] * 3 if len(arities(t)) > 1 else [])
             for _k in range(1, size):
-                kinds = [rng.choice(VARIANTS)]
+                kinds = [rng.choice(pool)]
                 if rng.random() < 0.15:
-                    kinds.append(rng.choice(VARIANTS))
+                    kinds.append(rng.choice(pool))
                 s = base
                 n = numbers.pop()
                 for kind in kinds:
@@ -253,7 +287,7 @@ def gen_exhaustive(types, tol_factors):
 
     fx = Fixed()
     for t in types:
-        cs = {1: ["1.5"], 3: ["0.25", "3", "2.5"], 4: ["1", "0", "0", "2.5"]}[nconsts(t)]
+        cs = {1: ["1.5"], 2: ["1", "2.5"], 3: ["0.25", "3", "2.5"], 4: ["1", "0", "0", "2.5"]}[nconsts(t)]
         base = {"n": 1, "t": t, "c": cs, "tr": None, "per": None, "bc": ""}
         far = {"n": 9, "t": "PZ" if t != "PZ" else "PY", "c": ["77"], "tr": None, "per": None, "bc": ""}
         for v1 in VARIANTS:
@@ -388,6 +422,8 @@ def _features(case, res):
             f.append("surface:bc" + s["bc"])
     for e in case.get("edits", []):
         f.append("edit:" + e[0])
+    if any(a["t"] == b["t"] and len(a["c"]) != len(b["c"]) for a in case["surfaces"] for b in case["surfaces"]):
+        f.append("family:same-mnemonic-different-arity")
     f.append(f"calls:{len(case['tols'])}")
     f.append(f"cells:{len(case['cells'])}")
     if res.get("read") == "ok":
@@ -487,10 +523,11 @@ def check_cases(chk, drv, cases, label, shrink=True):
 
 def run(chk):
     chk.rule = (
-        "cases are MCNP problems rendered from a typed AST (1-3 families of 2-4 surfaces: a base surface of one of 13 "
-        "mnemonics and variants equal to it or differing in one (sometimes two) of: a constant by delta or 2*delta, the "
-        "mnemonic, the transform (same / near / far / rotated / degrees / direction), a periodic partner, reflecting, "
-        "white; chains a~b~c; shuffled card order; 1-4 void cells with random geometry trees over the surfaces and "
+        "cases are MCNP problems rendered from a typed AST (1-3 families of 2-4 surfaces: a base surface of one of 19 "
+        "mnemonics (9 built as finder classes, 10 as plain Surface / GeneralPlane) and variants equal to it or differing in "
+        "one (sometimes two) of: a constant by delta or 2*delta, the mnemonic, the transform (same / near / far / rotated "
+        "/ degrees / direction), a periodic partner, reflecting, white, the number of constants (another legal length "
+        "of the same mnemonic, the shorter list a prefix of the longer: K/Z 4|5, KZ 2|3, X Z 2|4|6, P 4|9); chains a~b~c; shuffled card order; 1-4 void cells with random geometry trees over the surfaces and "
         "#cell complements; optional API edits before the call; 1-3 successive calls with tolerances below, at and "
         "above delta and 2*delta, 0, negative, large), read by montepy.read_input. A case is non-trivial when a "
         "surface was removed or when some pair of surfaces misses the duplicate relation in exactly one criterion."
@@ -512,14 +549,14 @@ def run(chk):
 
     corpus = load_corpus()
     check_cases(chk, drv, corpus, "corpus")
-    exh = list(gen_exhaustive(chk.pick(["PZ", "C/Z"], ["PZ", "PX", "CZ", "CX", "C/Z", "C/Y", "P"]),
+    exh = list(gen_exhaustive(chk.pick(["PZ", "C/Z", "K/Z"], ["PZ", "PX", "CZ", "CX", "C/Z", "C/Y", "P", "K/Z", "Z"]),
                               chk.pick(["0.5", "1.5", "10"], ["0.5", "1", "1.5", "2.5", "10"])))
     check_cases(chk, drv, exh, "exhaustive-3-surfaces")
     rng = chk.rng("random")
     rnd = [gen_random_case(rng) for _ in range(chk.pick(700, 40000))]
     check_cases(chk, drv, rnd, "random")
     chk.units["U-dedupe"] = {"corpus": len(corpus), "exhaustive_small": len(exh), "random": len(rnd)}
-    chk.exhaustive = {"sub-space": "3 surfaces A,B,C: (B,C) over all 13x13 single-attribute variants of A x base types x tolerances", "cases": len(exh)}
+    chk.exhaustive = {"sub-space": "3 surfaces A,B,C: (B,C) over all 14x14 single-attribute variants of A x base types x tolerances", "cases": len(exh)}
     if chk.thorough:
         leanio.leanchecker(chk, ["MontePyVerif.Props.C18"])
 
